@@ -52,7 +52,17 @@ base["not_applicable"] = na
 base["hooks"]["source_commits"] = [l.split()[0] for l in os.popen("git -C /repo log --format='%h %s' --grep='^verif hooks' ").read().splitlines()]
 for e in base["engines"]:
     e["serves_properties"] = sorted(claimed)
-json.dump(base, open(os.path.join(root, "MANIFEST.json"), "w"), indent=1)
-kf = {"comment": "Genuine defects of the pinned tree, merged from harness/props/*/findings.json by gen_manifest.py. status=open: recorded, witness replayed on every run (prints KNOWN-FINDING while it still fails); 'scope' names the generator predicate that keeps the random sweep off exactly that construct. status=fixed: repaired by the named fix: commit in /repo; suppresses nothing, witness replayed as a regression case.", "findings": findings}
-json.dump(kf, open(os.path.join(root, "known_findings.json"), "w"), indent=1)
+def dump_atomic(obj, path):
+    tmp = path + ".tmp%d" % os.getpid()
+    json.dump(obj, open(tmp, "w"), indent=1)
+    os.replace(tmp, path)
+dump_atomic(base, os.path.join(root, "MANIFEST.json"))
+for f in findings:
+    what = " ".join(str(f.get("what", "")).split())
+    if f.get("status") == "fixed":
+        f["record"] = "fixed: property=%s %s %s" % (f["property"], f.get("commit", "PENDING"), what)
+    else:
+        f["record"] = "KNOWN-FINDING: property=%s %s (%s)" % (f["property"], what, f["id"])
+kf = {"comment": "Genuine defects of the pinned tree, merged from harness/props/*/findings.json by gen_manifest.py. status=open: recorded, witness replayed on every run (prints KNOWN-FINDING while it still fails); 'scope' names the generator predicate that keeps the random sweep off exactly that construct. status=fixed: repaired by the named fix: commit in /repo; suppresses nothing, witness replayed as a regression case. 'record' is the one-line form of the entry (fixed: property=<id> <commit> <what failed> / KNOWN-FINDING: property=<id> <what fails>).", "findings": findings}
+dump_atomic(kf, os.path.join(root, "known_findings.json"))
 print("MANIFEST.json: %d checks, %d not_applicable" % (len(checks), len(na)))
